@@ -105,10 +105,10 @@ var badSeqs = []string{"\xff", "\xfe", "\x80", "\xbf", "\xc0\x80", "\xc1\xbf", "
 	"\xe2\x80", "\xe2", "\xf0\x9f\x98", "\xf0\x9f", "\xf8\x88\x80\x80\x80", "\xe2\x28\xa1", "\xc3\x28"}
 
 var specials = []string{`"`, `\`, "\n", "\r", "\t", "\b", "\f", "\x00", "\x01", "\x1f", "\x7f", "<", ">", "&", "/", "'",
-	"\u2028", "\u2029", `\n`, `\u0041`, `\"`, "{", "}", "[", "]", ",", ":", " ", `","x":"`, `"}` + "\n" + `{"ip":"6.6.6.6`}
+	"\u2028", "\u2029", `\n`, `\u0041`, `\u0026`, `\u003c`, `\u003e`, `\u003C`, `\\u0026`, `\u2028`, `\ufffd`, `\ud83d\ude00`, `\u00`, `\"\u003e`, `\"`, "{", "}", "[", "]", ",", ":", " ", `","x":"`, `"}` + "\n" + `{"ip":"6.6.6.6`}
 
 func nasty(r *hlib.SplitMix64) (string, string) {
-	switch r.Intn(12) {
+	switch r.Intn(13) {
 	case 0:
 		return "", "empty"
 	case 1: // plain printable
@@ -187,8 +187,23 @@ func nasty(r *hlib.SplitMix64) (string, string) {
 	case 10: // vendor-like
 		v := []string{"TP-LINK TECHNOLOGIES CO.,LTD.", "Apple, Inc.", "AzureWave Technology Inc.", "Hewlett Packard", "D&M Holdings Inc.", "AT&T", "Hon Hai Precision Ind. Co.,Ltd.", "IEEE Registration Authority"}
 		return v[r.Intn(len(v))], "vendor"
-	default:
+	case 11:
 		return "aa:bb:cc:00:11:" + fmt.Sprintf("%02x", r.Intn(256)), "mac"
+	default:
+		// text that LOOKS like JSON escapes: a literal backslash followed by uXXXX / n / " ... (a value
+		// such as a Windows path or a regular expression); any post-processing of the encoded bytes that
+		// matches escape sequences textually confuses these with real escapes
+		var sb strings.Builder
+		for i := 0; i < 1+r.Intn(4); i++ {
+			switch r.Intn(4) {
+			case 0:
+				sb.WriteString([]string{"a", "index-", "C:", " ", "<", "&"}[r.Intn(6)])
+			default:
+				sb.WriteByte('\\')
+				sb.WriteString([]string{"u0026", "u003c", "u003e", "u003C", "u2028", "u2029", "ufffd", "u0000", "u0022", "n", "t", `"`, "\\", "/", "u00e9", "ud800", "x41"}[r.Intn(17)])
+			}
+		}
+		return sb.String(), "escape-lookalike"
 	}
 }
 
@@ -742,7 +757,20 @@ func judge(g genRes, out []byte) string {
 		return "the encoded result is not valid UTF-8"
 	}
 	if !json.Valid(out) {
-		return "the encoded result is not valid JSON"
+		var v interface{}
+		err := json.Unmarshal(out, &v)
+		where := ""
+		if se, ok := err.(*json.SyntaxError); ok {
+			lo, hi := int(se.Offset)-24, int(se.Offset)+8
+			if lo < 0 {
+				lo = 0
+			}
+			if hi > len(out) {
+				hi = len(out)
+			}
+			where = fmt.Sprintf(" (%v at byte %d: ...%s...)", err, se.Offset, out[lo:hi])
+		}
+		return "the encoded result is not valid JSON" + where
 	}
 	if len(out) == 0 || out[0] != '{' {
 		return "the encoded result is not a JSON object"
@@ -1813,6 +1841,109 @@ func burstCase(r *hlib.SplitMix64, gen string) row {
 	return rw
 }
 
+// ---------------------------------------------------------------- back-pressure: the result channel is a FIFO
+
+type gatedWriter struct {
+	gate chan struct{}
+	mu   sync.Mutex
+	buf  bytes.Buffer
+	n    int
+}
+
+func (w *gatedWriter) Write(p []byte) (int, error) {
+	<-w.gate
+	w.mu.Lock()
+	defer w.mu.Unlock()
+	w.buf.Write(p)
+	w.n += bytes.Count(p, []byte{'\n'})
+	return len(p), nil
+}
+
+func (w *gatedWriter) lines() int {
+	w.mu.Lock()
+	defer w.mu.Unlock()
+	return w.n
+}
+
+// queueCase: ONE producer puts n results (n > 2 x capacity + what is in flight) into the real
+// scan.NewResultChan while the writer behind the real JSON logger is stalled, then the writer is
+// released.  capacity 4 and the commands' capacity 1000.  Judged on the implementation alone: all n
+// lines, in production order.
+func queueCase(r *hlib.SplitMix64, gen string, capacity int) row {
+	n := 2*capacity + 10 + r.Intn(3*capacity+20)
+	if capacity >= 100 {
+		n = 2*capacity + 200 + r.Intn(400)
+	}
+	rw := row{T: "log", Gen: gen, Class: fmt.Sprintf("backpressure-cap%d", capacity), Stop: -1, Nontrivial: true}
+	ctx, cancel := context.WithCancel(context.Background())
+	defer cancel()
+	results := scan.NewResultChan(ctx, capacity)
+	w := &gatedWriter{gate: make(chan struct{})}
+	lg, err := log.NewLogger(w, "queue", log.JSON())
+	if err != nil {
+		panic(err)
+	}
+	lctx, lcancel := context.WithCancel(context.Background())
+	defer lcancel()
+	ldone := make(chan struct{})
+	go func() { lg.LogResults(lctx, results.Chan()); close(ldone) }()
+	var gs []genRes
+	for i := 0; i < n; i++ {
+		x := &tcp.ScanResult{ScanType: tcp.SYNScanType, IP: fmt.Sprintf("10.9.%d.%d", i/250, i%250), Port: uint16(1 + i%65535)}
+		gs = append(gs, genRes{real: x, desc: resDesc{1, []val{sval(x.ScanType), sval(x.IP), nval(int64(x.Port)), sval(x.Flags)}}})
+	}
+	pdone := make(chan struct{})
+	go func() { // the one producer (the packet receive loop)
+		for _, g := range gs {
+			results.Put(g.real)
+		}
+		close(pdone)
+	}()
+	// let the queue fill up behind the stalled writer (the producer blocks in Put, or has spilled everything)
+	select {
+	case <-pdone:
+	case <-time.After(30 * time.Millisecond):
+	}
+	close(w.gate)
+	select {
+	case <-pdone:
+	case <-time.After(20 * time.Second):
+		rw.Spec = "the producer is still blocked in Put although the writer runs"
+		return rw
+	}
+	for dl := time.Now().Add(10 * time.Second); w.lines() < n && time.Now().Before(dl); {
+		time.Sleep(time.Millisecond)
+	}
+	lcancel()
+	<-ldone
+	w.mu.Lock()
+	stream := append([]byte{}, w.buf.Bytes()...)
+	w.mu.Unlock()
+	rw.Writes = []string{hx(stream)}
+	lines := bytes.Split(bytes.TrimSuffix(stream, []byte{'\n'}), []byte{'\n'})
+	if len(stream) == 0 {
+		lines = nil
+	}
+	for i, g := range gs {
+		rw.Rs = append(rw.Rs, g.desc)
+		if rw.Spec != "" {
+			continue
+		}
+		enc, _ := g.real.MarshalJSON()
+		switch {
+		case i >= len(lines):
+			rw.Spec = fmt.Sprintf("%d results produced by one producer into NewResultChan(ctx, %d) behind a stalled writer: only %d lines are printed", n, capacity, len(lines))
+		case !bytes.Equal(lines[i], enc):
+			rw.Spec = fmt.Sprintf("%d results produced by one producer into NewResultChan(ctx, %d) behind a stalled writer: line %d is %s but the result produced %d-th is %s (lines are not in production order)",
+				n, capacity, i+1, lines[i], i+1, enc)
+		}
+	}
+	if rw.Spec == "" && len(lines) > n {
+		rw.Spec = fmt.Sprintf("%d results produced, %d lines printed", n, len(lines))
+	}
+	return rw
+}
+
 // ---------------------------------------------------------------- driver
 
 func derive(seed int64, i int) int64 {
@@ -1861,6 +1992,8 @@ func genCase(gen string) row {
 		return liveCase(hlib.NewRand(num(1)), gen)
 	case "burst":
 		return burstCase(hlib.NewRand(num(1)), gen)
+	case "queue": // queue:<capacity>:<seed>
+		return queueCase(hlib.NewRand(num(2)), gen, int(num(1)))
 	}
 	panic("bad gen string " + gen)
 }
@@ -1932,6 +2065,14 @@ func main() {
 	}
 	for i := 0; i < *ndec; i++ {
 		w.Put(genCase(fmt.Sprintf("dec:%d", derive(*seed, k))))
+		k++
+	}
+	if *nburst > 0 {
+		for i := 0; i < 8; i++ {
+			w.Put(genCase(fmt.Sprintf("queue:4:%d", derive(*seed, k))))
+			k++
+		}
+		w.Put(genCase(fmt.Sprintf("queue:1000:%d", derive(*seed, k))))
 		k++
 	}
 	for i := 0; i < *nburst; i++ {
